@@ -3,8 +3,8 @@
    Vocabulary (Model/FastlogOps.v): [wf l] the buffer has 2048 bytes; [fits l t] index + |t| <= 2048;
    [appended l t r] the call r returned a line whose text is the text of l followed by exactly t;
    [fld name t] = " name=" ++ t.  Reference renderings: Spec/TextSpec.v. *)
-From PV Require Import Base.Prelude Model.Fastlog Model.FastlogOps Model.FastlogAsFound Spec.TextSpec
-  Proofs.Fastlog Proofs.FastlogIP6 Proofs.FastlogLine Proofs.FastlogInside Proofs.FastlogMsg Proofs.FastlogAsFound.
+From PV Require Import Base.Prelude Model.Fastlog Model.FastlogOps Model.FastlogViews Model.FastlogAsFound Spec.TextSpec
+  Proofs.Fastlog Proofs.FastlogIP6 Proofs.FastlogLine Proofs.FastlogInside Proofs.FastlogMsg Proofs.FastlogViews Proofs.FastlogAsFound.
 Open Scope N_scope.
 
 (* Uint8 / Uint16 / Uint32 print strconv's decimal text *)
@@ -170,6 +170,48 @@ Print Assumptions C20_msg.
 Theorem C20_spec_dec_value : forall n, dec_value (dec n) = n.
 Proof. exact dec_value_dec. Qed.
 Print Assumptions C20_spec_dec_value.
+
+(* ---- views and table entries (Model/FastlogViews.v): each FastLog is the list of appender calls it
+   performs as a function of the view bytes / entry fields; Struct(value) is a call (VStruct).
+   [view_ok]: IsValid accepts the frame and its bytes are bytes; entries: MACs are bytes, ports uint16. *)
+
+(* the String/FastLog rendering of any valid view or table entry whose text fits never panics, and the
+   text is the concatenation of the reference renderings of its fields *)
+Theorem C20_view_fastlog_safe : forall v l,
+  view_ok v -> wf l -> (index l <= BUFSZ)%nat -> line_fits (index l) (flatten (ops_of v)) = true ->
+  exists l', run_vops l (ops_of v) = Ok l' /\
+             to_string l' = Ok (text_of l ++ concat (map spec_text (flatten (ops_of v)))).
+Proof. exact view_fastlog_safe. Qed.
+Print Assumptions C20_view_fastlog_safe.
+
+Theorem C20_view_fastlog_no_panic : forall v l,
+  view_ok v -> wf l -> (index l <= BUFSZ)%nat -> line_fits (index l) (flatten (ops_of v)) = true ->
+  run_vops l (ops_of v) <> Panic.
+Proof. exact view_fastlog_no_panic. Qed.
+Print Assumptions C20_view_fastlog_no_panic.
+
+(* the fifteen byte views cannot reach a non-fitting call: on ANY valid frame (of at most 70000 bytes),
+   from any index up to 1600, no call panics and the index stays inside the buffer -- thirteen have a text
+   of at most 400 bytes, ICMPEcho and IEEE1905 end in a ByteArray, which truncates itself *)
+Theorem C20_view_bytes_total : forall k p l,
+  view_valid k p = true -> bytes_ok p -> frame_len_ok p -> wf l -> (index l <= 1600)%nat ->
+  exists l', run_vops l (view_ops k p) = Ok l' /\ wf l' /\ (index l' <= BUFSZ)%nat.
+Proof. exact view_bytes_total. Qed.
+Print Assumptions C20_view_bytes_total.
+
+(* hence String() = Logger.Msg("").Struct(p).ToString() of these views never panics *)
+Theorem C20_view_string_total : forall k p b0 m,
+  view_valid k p = true -> bytes_ok p -> frame_len_ok p -> List.length b0 = BUFSZ ->
+  exists l0 l' t, msg_line b0 m [] = Ok l0 /\ run_vops l0 (view_ops k p) = Ok l' /\ to_string l' = Ok t.
+Proof. exact view_string_total. Qed.
+Print Assumptions C20_view_string_total.
+
+Example C20_views_nonvacuous :
+  view_ok (VBytes KIP4 ex_ip4) /\ frame_len_ok ex_ip4 /\ view_ok (VHost ex_host) /\
+  line_fits 7 (flatten (ops_of (VHost ex_host))) = true /\
+  List.length (concat (map spec_text (flatten (ops_of (VBytes KIP4 ex_ip4))))) = 87%nat.
+Proof. exact views_nonvacuous. Qed.
+Print Assumptions C20_views_nonvacuous.
 
 (* ---------------------------------------------------------------------------------------------
    The code AS FOUND (/repo 040c128) violated the property in five ways; each was reproduced on
